@@ -77,11 +77,14 @@ struct Chunk {
     flush: Option<bool>,
     /// step during which the instance was made
     step: usize,
+    /// the handle was dropped: nothing more can arrive
+    done: bool,
 }
 
 #[derive(Default)]
 struct Shared {
-    chunks: Vec<Chunk>,
+    /// handles made so far and not yet reported; a handle is reported in the step in which it is dropped
+    chunks: Vec<Option<Chunk>>,
     armed: Option<Fault>,
     step: usize,
 }
@@ -96,29 +99,41 @@ struct DestW {
 }
 
 impl Dest {
+    fn lock(&self) -> std::sync::MutexGuard<'_, Shared> {
+        self.0.lock().unwrap_or_else(|e| e.into_inner())
+    }
     fn make(&self) -> DestW {
-        let mut g = self.0.lock().unwrap();
+        let mut g = self.lock();
         let step = g.step;
-        g.chunks.push(Chunk { step, ..Default::default() });
+        g.chunks.push(Some(Chunk { step, ..Default::default() }));
         DestW { d: self.clone(), idx: g.chunks.len() - 1, ncalls: 0 }
+    }
+}
+
+impl Drop for DestW {
+    fn drop(&mut self) {
+        let mut g = self.d.lock();
+        if let Some(Some(c)) = g.chunks.get_mut(self.idx) {
+            c.done = true;
+        }
     }
 }
 
 impl io::Write for DestW {
     fn write(&mut self, buf: &[u8]) -> io::Result<usize> {
-        let mut g = self.d.0.lock().unwrap();
+        let mut g = self.d.lock();
         if buf.is_empty() {
             return Ok(0);
         }
-        if g.chunks[self.idx].fault.is_none() {
+        if g.chunks[self.idx].as_ref().unwrap().fault.is_none() {
             // the fault of this invocation goes to the first instance that is offered bytes
             let f = g.armed.take().unwrap_or(Fault::Ok);
-            g.chunks[self.idx].fault = Some(f);
+            g.chunks[self.idx].as_mut().unwrap().fault = Some(f);
         }
-        let f = g.chunks[self.idx].fault.unwrap();
+        let f = g.chunks[self.idx].as_ref().unwrap().fault.unwrap();
         self.ncalls += 1;
         let n = self.ncalls;
-        let c = &mut g.chunks[self.idx];
+        let c = g.chunks[self.idx].as_mut().unwrap();
         let res: io::Result<usize> = match f {
             Fault::Ok | Fault::Ferr => Ok(buf.len()),
             Fault::Short => Ok(buf.len().min(61)),
@@ -149,8 +164,8 @@ impl io::Write for DestW {
     }
 
     fn flush(&mut self) -> io::Result<()> {
-        let mut g = self.d.0.lock().unwrap();
-        let c = &mut g.chunks[self.idx];
+        let mut g = self.d.lock();
+        let c = g.chunks[self.idx].as_mut().unwrap();
         if c.fault == Some(Fault::Ferr) {
             c.flush = Some(false);
             Err(io::Error::other("scripted flush error"))
@@ -234,8 +249,9 @@ fn update(st: &J) {
 }
 
 fn take_chunks(d: &Dest) -> Vec<J> {
-    let mut g = d.0.lock().unwrap();
-    let chunks = std::mem::take(&mut g.chunks);
+    let mut g = d.lock();
+    // only handles that were dropped: a live one (its index stays valid) is reported by a later step
+    let chunks: Vec<Chunk> = g.chunks.iter_mut().filter(|c| c.as_ref().is_some_and(|c| c.done)).filter_map(|c| c.take()).collect();
     chunks
         .into_iter()
         .filter(|c| !c.calls.is_empty() || c.flush == Some(false))
@@ -288,13 +304,13 @@ fn cmd_one() {
     let mut inv = 0u64;
     let mut out = Vec::new();
     for (i, st) in b["steps"].as_array().unwrap().iter().enumerate() {
-        dest.0.lock().unwrap().step = i + 1;
+        dest.lock().step = i + 1;
         let op = st["op"].as_str().unwrap_or("");
         let mut ret = J::Null;
         let mut took_ms = 0u64;
         if op == "Flush" {
             inv += 1;
-            dest.0.lock().unwrap().armed = Some(Fault::parse(st["fault"].as_str().unwrap_or("ok")));
+            dest.lock().armed = Some(Fault::parse(st["fault"].as_str().unwrap_or("ok")));
             let _g = set_time_source(TimeSource::custom(StaticTimeSource::at_time(
                 UNIX_EPOCH + Duration::from_secs(base_s + 10 * inv),
             )));
@@ -311,7 +327,7 @@ fn cmd_one() {
                 Err(p) => json!(format!("panic: {p}")),
             };
             // an unconsumed fault must not leak into a later invocation
-            dest.0.lock().unwrap().armed = None;
+            dest.lock().armed = None;
         } else {
             if let Err(p) = util::catch(|| update(st)) {
                 ret = json!(format!("panic: {p}"));
@@ -362,8 +378,10 @@ fn run_child(exe: &std::path::Path, b: &J, timeout: Duration) -> J {
     }
     let o = ch.wait_with_output().unwrap();
     let so = String::from_utf8_lossy(&o.stdout);
+    // the result line is complete before the child leaves; how it leaves (its detached writer thread may
+    // still be running while the process exits) does not matter
     match so.lines().last().and_then(|l| serde_json::from_str::<J>(l).ok()) {
-        Some(v) if o.status.success() => v,
+        Some(v) if v.get("steps").is_some() => v,
         _ => json!({"id": b["id"], "crash": String::from_utf8_lossy(&o.stderr).chars().take(2000).collect::<String>(),
                     "status": o.status.code()}),
     }
